@@ -1355,7 +1355,7 @@ class Rig:
             else:
                 dd = net_diff(self.ref, refkey, net)
             if dd is not None and cls == "soft-corrupt" and parsed == 0:
-                self.report("cache:corrupt-payload-silently-used", f"{op}: a cache with a damaged payload byte was loaded without any error and the returned network differs from a fresh parse ({dd[0]}): {dd[1]}", trace)
+                self.report(NOT_REJECTED, f"{op}: a cache with a damaged payload byte was loaded without any error and the returned network differs from a fresh parse ({dd[0]}): {dd[1]}", trace)
             elif dd is not None:
                 self.report(f"cache:network-differs-from-fresh-parse:{cls}:{dd[0]}", f"{op} ({cls} cache, parser ran {parsed}x) returned a network that differs from a fresh parse of the current map with options {cm.OPTS[optname]}: {dd[1]}", trace)
             else:
@@ -1424,8 +1424,12 @@ def cache_item(item):
         rig.close()
 
 
-def judge_damaged_cache(rel, mp, ca, data, pos, out, viol):
-    """Load the map next to a damaged cache file `data`; classify and judge the outcome."""
+NOT_REJECTED = "cache:damaged-payload-not-rejected"
+
+
+def judge_damaged_cache(rel, mp, ca, data, pos):
+    """Load the map next to a damaged cache file `data`; classify and judge the outcome.
+    -> (outcome key, violation or None).  Runs inside an expendable child process."""
     import base64
 
     from scenic.domains.driving.roads import Network
@@ -1440,10 +1444,10 @@ def judge_damaged_cache(rel, mp, ca, data, pos, out, viol):
             warnings.simplefilter("ignore")
             net = Network.fromFile(str(mp), useCache=True, writeCache=False, **cm.OPTS["A"])
     except Exception as e:
-        out[f"{zone}:raised:{type(e).__name__}"] += 1
+        v = None
         if not isinstance(e, (pickle.UnpicklingError, Network.DigestMismatchError)):
-            viol.append((f"cache:corrupt-byte-crashes-load:{zone}:{type(e).__name__}", f"cache of {rel} with byte {pos} incremented: fromFile raised {type(e).__name__}: {str(e)[:200]}", case))
-        return
+            v = (f"cache:damaged-{zone}-load-raises:{type(e).__name__}", f"cache of {rel} with byte {pos} incremented: fromFile raised {type(e).__name__}: {str(e)[:200]}", case)
+        return f"{zone}:raised:{type(e).__name__}", v
     parsed = _PARSES[0] - n0
     if parsed:
         # parsed afresh: deterministic, the structural comparison suffices
@@ -1453,18 +1457,101 @@ def judge_damaged_cache(rel, mp, ca, data, pos, out, viol):
             dd = ("structure-raises", repr(e)[:160])
     else:
         dd = net_diff(ref, (0, "A"), net)
-    out[f"{zone}:{'parsed' if parsed else 'cache-used'}:{'equivalent' if dd is None else 'DIFFERENT-' + dd[0]}"] += 1
+    key = f"{zone}:{'parsed' if parsed else 'cache-used'}:{'equivalent' if dd is None else 'DIFFERENT-' + dd[0]}"
+    v = None
     if dd is not None:
-        sig = "cache:corrupt-payload-silently-used" if zone == "payload" and not parsed else f"cache:damaged-{zone}-wrong-network"
-        viol.append((sig, f"cache of {rel} ({len(data)} bytes) with byte {pos} incremented by one: fromFile returned, without any error, a network that is not equivalent to a fresh parse ({dd[0]}): {dd[1]}", case))
+        sig = NOT_REJECTED if zone == "payload" and not parsed else f"cache:damaged-{zone}-wrong-network"
+        v = (sig, f"cache of {rel} ({len(data)} bytes) with byte {pos} incremented by one: fromFile returned, without any error, a network that is not equivalent to a fresh parse ({dd[0]}): {dd[1]}", case)
     elif zone == "header" and parsed == 0:
-        viol.append(("cache:corrupt-header-accepted", f"cache of {rel} with header byte {pos} incremented was used", case))
+        v = ("cache:corrupt-header-accepted", f"cache of {rel} with header byte {pos} incremented was used", case)
+    return key, v
+
+
+def _send(fd, obj):
+    data = pickle.dumps(obj)
+    os.write(fd, len(data).to_bytes(8, "little"))
+    while data:
+        n = os.write(fd, data)
+        data = data[n:]
+
+
+def _recv_all(fd, deadline_s):
+    """Records streamed by the child until EOF; (records, timed_out)."""
+    import select
+
+    buf = b""
+    recs = []
+    last = time.time()
+    while True:
+        r, _, _ = select.select([fd], [], [], 5.0)
+        if r:
+            chunk = os.read(fd, 1 << 20)
+            if not chunk:
+                return recs, False
+            buf += chunk
+            last = time.time()
+            while len(buf) >= 8:
+                n = int.from_bytes(buf[:8], "little")
+                if len(buf) < 8 + n:
+                    break
+                recs.append(pickle.loads(buf[8 : 8 + n]))
+                buf = buf[8 + n :]
+        elif time.time() - last > deadline_s:
+            return recs, True
+
+
+def isolated_each(fn, args_list, deadline_s=180):
+    """fn(*args) for each args in a forked child process that streams its results back.
+    Loading a damaged pickle can take the interpreter down (observed: 'SystemError:
+    deallocated bytearray object has exported buffers' followed by the death of the
+    process) or hang; the worker must survive that.  -> list of ("ok", result) |
+    ("crashed", wait status) | ("hung", None), one per args."""
+    out = []
+    i = 0
+    while i < len(args_list):
+        rfd, wfd = os.pipe()
+        pid = os.fork()
+        if pid == 0:  # child
+            code = 0
+            try:
+                os.close(rfd)
+                for args in args_list[i:]:
+                    try:
+                        rec = fn(*args)
+                    except Exception as e:  # a bug of the harness, not a crash of the load
+                        rec = ("__harness_exception__", repr(e)[:300])
+                    _send(wfd, rec)
+            except BaseException:
+                code = 3
+            finally:
+                os._exit(code)
+        os.close(wfd)
+        recs, timed_out = _recv_all(rfd, deadline_s)
+        os.close(rfd)
+        if timed_out:
+            try:
+                os.kill(pid, 9)
+            except ProcessLookupError:
+                pass
+        _, status = os.waitpid(pid, 0)
+        for r in recs:
+            if isinstance(r, tuple) and r and r[0] == "__harness_exception__":
+                raise HarnessError(f"exception in isolated harness code: {r[1]}")
+        out.extend(("ok", r) for r in recs)
+        i += len(recs)
+        if i < len(args_list):
+            # the child stopped before finishing: args_list[i] is the one that killed it
+            out.append(("hung", None) if timed_out else ("crashed", status))
+            i += 1
+    return out
 
 
 def sweep_item(item):
     """Single-byte corruption sweep: each position of a valid cache incremented by one.
     (The cache bytes differ from run to run -- cached id()-based hashes are pickled -- so
     the failing case carries the damaged file itself for the replay.)"""
+    import base64
+
     rel, positions = item
     from scenic.domains.driving.roads import Network
 
@@ -1480,21 +1567,33 @@ def sweep_item(item):
             warnings.simplefilter("ignore")
             Network.fromFile(str(mp), **cm.OPTS["A"])
         good = ca.read_bytes()
-        n = 0
+        jobs = []
         for pos in positions:
             if pos >= len(good):
                 continue
             b = bytearray(good)
             b[pos] = (b[pos] + 1) % 256
-            judge_damaged_cache(rel, mp, ca, bytes(b), pos, out, viol)
-            n += 1
+            jobs.append((rel, mp, ca, bytes(b), pos))
+        for job, (how, res) in zip(jobs, isolated_each(judge_damaged_cache, jobs)):
+            pos = job[4]
+            zone = "header" if pos < cm.HEADER else "payload"
+            if how == "ok":
+                key, v = res
+                out[key] += 1
+                if v is not None:
+                    viol.append(v)
+            else:
+                out[f"{zone}:process-{how}"] += 1
+                case = {"part": "sweep", "map": rel, "pos": pos, "cache_b64": base64.b64encode(job[3]).decode()}
+                what = f"the loading process died (wait status {res})" if how == "crashed" else "the load did not return within the deadline"
+                viol.append((NOT_REJECTED if zone == "payload" else "cache:damaged-header-kills-load", f"cache of {rel} ({len(job[3])} bytes) with byte {pos} incremented by one: {what}", case))
         seen = collections.Counter()
         keep = []
         for v in viol:
             seen[v[0]] += 1
             if seen[v[0]] <= 2:
                 keep.append(v)
-        return dict(kind="sweep", outcomes=dict(out), viol=keep, nviol=len(viol), n=n, size=len(good))
+        return dict(kind="sweep", outcomes=dict(out), viol=keep, nviol=len(viol), n=len(jobs), size=len(good))
     finally:
         shutil.rmtree(d, ignore_errors=True)
 
@@ -1887,10 +1986,14 @@ def replay(ctx, case):
             d = rundir / "sweep"
             d.mkdir()
             (d / "m.xodr").write_bytes(REFS[case["map"]]["contents"][(0, 0)])
-            out, viol = collections.Counter(), []
-            judge_damaged_cache(case["map"], d / "m.xodr", d / "m.snet", base64.b64decode(case["cache_b64"]), case["pos"], out, viol)
-            for sig, desc, c in viol:
-                ctx.violation(sig, desc, c)
+            data = base64.b64decode(case["cache_b64"])
+            zone = "header" if case["pos"] < cm.HEADER else "payload"
+            ((how, res),) = isolated_each(judge_damaged_cache, [(case["map"], d / "m.xodr", d / "m.snet", data, case["pos"])])
+            if how == "ok":
+                if res[1] is not None:
+                    ctx.violation(*res[1])
+            else:
+                ctx.violation(NOT_REJECTED if zone == "payload" else "cache:damaged-header-kills-load", f"damaged cache of {case['map']} (byte {case['pos']}): loading process {how} ({res})", case)
         else:
             raise HarnessError(f"unknown case {case}")
     finally:
